@@ -71,9 +71,12 @@ def validator(raw):
 
     def check(ref, b):
         ep = f"{ref[0]}__{'.'.join(map(str, ref[1]))}"
-        if ep not in cache:
-            node = raw[f"/metador_container/schemas/{ep}/jsonschema.json"]
-            cache[ep] = json.loads(node[()])
+        try:
+            if ep not in cache:
+                node = raw[f"/metador_container/schemas/{ep}/jsonschema.json"]
+                cache[ep] = json.loads(node[()])
+        except Exception:
+            return False   # no embedded JSON Schema for the object's schema
         try:
             jsonschema.Draft7Validator(cache[ep]).validate(json.loads(b))
             return True
